@@ -735,7 +735,10 @@ def run_batch(cases, glob_src=DEFAULT_GLOB_SRC, closure_value=5, normalise_locat
                         (k, call_env[k]) for k in (v0.get("order") or list(call_env.keys())) if k in call_env)
             ob = {"define": ["ok"]}
             del TICKS[:]
-            orc = oracle(c["expr"], env, {"cl": closure_value}, glob)
+            # PYTHON's scoping: only the condition's own parameters are its local variables; a parameter of the decorated
+            # function which the condition does not take leaves the name to the closure / the module's globals
+            oenv = env if kind == "invariant" or any(p.startswith("*") for p in params) else dict((k, v) for k, v in env.items() if k in params)
+            orc = oracle(c["expr"], oenv, {"cl": closure_value}, glob)
             ob["oracle_ticks"] = list(TICKS)
             ob["oracle_value_falsy"] = (orc["exc"] is None and not orc["value"])
             ob["oracle_exc"] = orc["exc"]
@@ -807,7 +810,7 @@ def run_batch(cases, glob_src=DEFAULT_GLOB_SRC, closure_value=5, normalise_locat
                 for newv in c["rebind_cl"]:
                     fs["set_cl"](newv)
                     sub = {"define": ["ok"], "cl": newv, "args_rendered": ob["args_rendered"]}
-                    orc2 = oracle(c["expr"], env, {"cl": newv}, glob)
+                    orc2 = oracle(c["expr"], oenv, {"cl": newv}, glob)
                     sub["oracle_value_falsy"] = (orc2["exc"] is None and not orc2["value"])
                     sub["oracle_exc"] = orc2["exc"]
                     ev2 = []
